@@ -28,6 +28,7 @@ var $callDeferred = (deferred, jsErr, fromPanic) => {
 
     $stackDepthOffset--;
     var aborted = false; /* this panic was superseded: a newer panic was recovered further up, or the goroutine is exiting */
+    var exiting = false; /* runtime.Goexit() is unwinding through this frame */
     var outerPanicStackDepth = $panicStackDepth;
     var outerPanicValue = $panicValue;
 
@@ -67,6 +68,8 @@ var $callDeferred = (deferred, jsErr, fromPanic) => {
                     deferred = null;
                     continue;
                 }
+                /* After runtime.Goexit() the unwinding continues in the caller once this frame's deferred calls are done. */
+                exiting = $curGoroutine.exit && !fromPanic;
                 return;
             }
             var r = call[0].apply(call[2], call[1]);
@@ -113,6 +116,9 @@ var $callDeferred = (deferred, jsErr, fromPanic) => {
             $panicValue = outerPanicValue;
         }
         $stackDepthOffset++;
+        if (exiting) {
+            throw null;
+        }
     }
 };
 
